@@ -1,5 +1,5 @@
 (* C18 driver: prints, from the extracted Coq model (C18_model), the same text as harness/c18_sep.cpp.
-   argv: enum | d4 | ops <file> <refresh 0|1> | gen <file> | equiv <file> | tglfcheck <harness-output>
+   argv: enum | d4 | ops <file> <refresh 0|1> | gen <file> | equiv <file> | tglfcheck <harness-output> | sub <file or ->
    Numbers cross as integers scaled by 4; Z/Q/nat stay the Coq datatypes. *)
 open C18_model
 
@@ -221,6 +221,57 @@ let mode_tglfcheck file =
   finish ();
   close_in ic
 
+(* sub <file>: the cases of harness mode sub ("<rows> | <ops>", see harness/c18_sep.cpp modeSub).  Per case one line
+     M <dump> # S <dump> # H <dump> # W k r u s
+   M = the loop model (SepSubsetModel.transformOpenSubset / transformClosedSubset, statement by statement after the code),
+   S = the declarative specification (spec_open: at least one node in the set, spec_closed: both), H = the loop model with the
+   set iterator of the second pass hoisted (seeded change C18-5), W = the well-formedness deciders of the theorems
+   (keys_ascb rows_ascb upperb on the input matrix, ascb on every id set). *)
+let mode_sub file =
+  let ic = if file = "-" then stdin else open_in file in
+  let trim = String.trim in
+  let parse_pair = function
+    | [xgt; ygt; xst; yst; xg; yg] ->
+      { xgt = gts.(int_of_string xgt); ygt = gts.(int_of_string ygt); xst = sts.(int_of_string xst);
+        yst = sts.(int_of_string yst); xgap = parsegap xg; ygap = parsegap yg }
+    | _ -> failwith "pair" in
+  let dump m =
+    "D" ^ String.concat "" (List.concat_map (fun (i, row) ->
+        List.map (fun (j, sp) -> Printf.sprintf " | %d %d %s" (int_of_nat i) (int_of_nat j) (pairstr sp)) row) m)
+    ^ " | r" ^ String.concat "" (List.map (fun (i, _) -> " " ^ string_of_int (int_of_nat i)) m) in
+  (try while true do
+      let line = input_line ic in
+      match String.split_on_char '|' line with
+      | [rows; ops] ->
+        let m0 = List.filter_map (fun row ->
+            match String.index_opt row ':' with
+            | None -> None
+            | Some c ->
+              let i = nat_of_int (int_of_string (trim (String.sub row 0 c))) in
+              let cells = String.split_on_char ',' (String.sub row (c + 1) (String.length row - c - 1)) in
+              Some (i, List.filter_map (fun cell -> match split_ws cell with
+                  | j :: rest when List.length rest = 6 -> Some (nat_of_int (int_of_string j), parse_pair rest)
+                  | _ -> None) cells)) (String.split_on_char ';' rows) in
+        let ops = List.filter_map (fun op -> match split_ws op with
+            | o :: t :: ids -> Some (o, tfs.(int_of_string t), List.map (fun x -> nat_of_int (int_of_string x)) ids)
+            | _ -> None) (String.split_on_char ';' ops) in
+        let run openf closedf =
+          List.fold_left (fun m (o, t, ids) ->
+              match o with
+              | "O" -> openf t ids m
+              | "C" -> closedf t ids m
+              | "T" -> sm_spec_open t (List.map fst m) m          (* every first id in the set: the plain transform *)
+              | _ -> m) m0 ops in
+        let wf_sets = List.for_all (fun (_, _, ids) -> ascb ids) ops in
+        Printf.printf "M %s # S %s # H %s # W %d %d %d %d\n"
+          (dump (run sm_transformOpenSubset sm_transformClosedSubset))
+          (dump (run sm_spec_open sm_spec_closed))
+          (dump (run sm_transformOpenSubset_hoisted sm_transformClosedSubset))
+          (bi (keys_ascb m0)) (bi (rows_ascb m0)) (bi (upperb m0)) (bi wf_sets)
+      | _ -> ()
+    done with End_of_file -> ());
+  if file <> "-" then close_in ic
+
 let () =
   match Array.to_list Sys.argv with
   | [_; "enum"] -> mode_enum ()
@@ -229,4 +280,5 @@ let () =
   | [_; "gen"; f] -> mode_gen f
   | [_; "equiv"; f] -> mode_equiv f
   | [_; "tglfcheck"; f] -> mode_tglfcheck f
+  | [_; "sub"; f] -> mode_sub f
   | _ -> prerr_endline "usage"; exit 2
